@@ -309,32 +309,596 @@ theorem outValOf_some (cs : List Node) (r : Addr) (h : r ∈ outDom cs) : ∃ v,
     simp at this
   | some q => exact ⟨q.2, rfl⟩
 
-theorem forgeIn_nopush (cfg : Cfg) (hp : cfg.pushLinks = false) (c : Core) (cs : List Node) :
+/-! ### value links: when re-forging through the setter changes nothing -/
+
+mutual
+/-- pushing `v` into input `x` of the node is accepted and changes nothing: the owner is not
+running, the input already holds `v`, and so on down the node's own link -/
+def Quiet : Node → Lbl → Val → Prop
+  | .mk c ch _ _, x, v =>
+    c.running = false ∧ setVal c.ins x v = c.ins ∧
+    (match lookupLink c.inLinks x with
+     | none => True
+     | some r => QuietL ch r.1 r.2 v)
+def QuietL : List Node → Lbl → Lbl → Val → Prop
+  | [], _, _, _ => True
+  | n :: ns, cl, x, v => if n.core.label = cl then Quiet n x v else QuietL ns cl x v
+end
+
+mutual
+theorem pushIn_quiet : ∀ (n : Node) (x : Lbl) (v : Val), Quiet n x v → pushIn n x v = .ok n
+  | .mk c ch dg sg, x, v, h => by
+    simp only [Quiet] at h
+    obtain ⟨hr, hs, hl⟩ := h
+    cases hlk : lookupLink c.inLinks x with
+    | none =>
+      simp only [pushIn, hr, hlk, hs]
+      cases c; simp_all
+    | some r =>
+      rw [hlk] at hl
+      have := pushInL_quiet ch r.1 r.2 v hl
+      simp only [pushIn, hr, hlk, this, hs]
+      cases c; simp_all
+theorem pushInL_quiet : ∀ (ns : List Node) (cl x : Lbl) (v : Val), QuietL ns cl x v → pushInL ns cl x v = .ok ns
+  | [], _, _, _, _ => by simp [pushInL]
+  | n :: ns, cl, x, v, h => by
+    simp only [QuietL] at h
+    by_cases hc : n.core.label = cl
+    · simp only [hc, if_true] at h
+      simp [pushInL, hc, pushIn_quiet n x v h]
+    · simp only [hc, if_false] at h
+      simp [pushInL, hc, pushInL_quiet ns cl x v h]
+end
+
+mutual
+/-- the links of the whole tree are settled: re-forging any of them pushes nothing new -/
+def Settled : Node → Prop
+  | .mk c ch _ _ =>
+    (c.kind.hasLinks = true →
+      (∀ p ∈ c.inLinks, ∀ v, valOf c.ins p.1 = some v → QuietL ch p.2.1 p.2.2 v) ∧
+      (∀ p ∈ c.outLinks, ∀ v, outValOf ch p.1 = some v → setVal c.outs p.2 v = c.outs)) ∧
+    SettledL ch
+def SettledL : List Node → Prop
+  | [] => True
+  | n :: ns => Settled n ∧ SettledL ns
+end
+
+mutual
+theorem quiet_img (cfg : Cfg) : ∀ (n : Node) (d : Option Path) (x : Lbl) (v : Val),
+    Quiet n x v → Quiet (img cfg d n) x v
+  | .mk c ch dg sg, d, x, v, h => by
+    simp only [Quiet] at h
+    obtain ⟨hr, hs, hl⟩ := h
+    simp only [img, Quiet, Core.forState]
+    refine ⟨hr, hs, ?_⟩
+    cases hlk : lookupLink c.inLinks x with
+    | none => simp
+    | some r =>
+      rw [hlk] at hl
+      exact quietL_img cfg ch r.1 r.2 v hl
+theorem quietL_img (cfg : Cfg) : ∀ (ns : List Node) (cl x : Lbl) (v : Val),
+    QuietL ns cl x v → QuietL (imgL cfg ns) cl x v
+  | [], _, _, _, _ => by simp [imgL, QuietL]
+  | n :: ns, cl, x, v, h => by
+    simp only [QuietL] at h
+    simp only [imgL, QuietL, img_core, Core.forState]
+    by_cases hc : n.core.label = cl
+    · simp only [hc, if_true] at h ⊢
+      exact quiet_img cfg n none x v h
+    · simp only [hc, if_false] at h ⊢
+      exact quietL_img cfg ns cl x v h
+end
+
+theorem outVals_imgL (cfg : Cfg) (ns : List Node) : outVals (imgL cfg ns) = outVals ns := by
+  induction ns with
+  | nil => simp [imgL]
+  | cons n ns ih =>
+    simp only [outVals, imgL, List.flatMap_cons] at ih ⊢
+    rw [ih]; simp [Core.forState]
+
+theorem forgeIn_ok (cfg : Cfg) (c : Core) (cs : List Node) :
     ∀ links : List (Lbl × Addr), (∀ p ∈ links, p.1 ∈ labelsOf c.ins) → (∀ p ∈ links, p.2 ∈ inDom cs) →
+      (cfg.pushLinks = true → ∀ p ∈ links, ∀ v, valOf c.ins p.1 = some v → QuietL cs p.2.1 p.2.2 v) →
       forgeIn cfg c cs links = .ok cs := by
   intro links
   induction links with
   | nil => intros; rfl
   | cons p links ih =>
-    intro h1 h2
+    intro h1 h2 h3
     obtain ⟨v, hv⟩ := valOf_some c.ins p.1 (h1 p (by simp))
     have hm : p.2 ∈ inDom cs := h2 p (by simp)
-    obtain ⟨x, r⟩ := p
-    simp only [forgeIn, hm, not_true_eq_false, if_false, hv, hp]
-    exact ih (fun q hq => h1 q (by simp [hq])) (fun q hq => h2 q (by simp [hq]))
+    have ih' := ih (fun q hq => h1 q (by simp [hq])) (fun q hq => h2 q (by simp [hq]))
+      (fun hp q hq => h3 hp q (by simp [hq]))
+    cases hp : cfg.pushLinks with
+    | false =>
+      obtain ⟨x, r⟩ := p
+      simp only [forgeIn, hm, not_true_eq_false, if_false, hv, hp]
+      exact ih'
+    | true =>
+      have hq := pushInL_quiet cs p.2.1 p.2.2 v (h3 hp p (by simp) v hv)
+      obtain ⟨x, r⟩ := p
+      simp only [forgeIn, hm, not_true_eq_false, if_false, hv, hp, if_true, hq]
+      exact ih'
 
-theorem forgeOut_nopush (cfg : Cfg) (hp : cfg.pushLinks = false) (cs : List Node) (c : Core) :
+theorem forgeOut_ok (cfg : Cfg) (cs : List Node) (c : Core) :
     ∀ links : List (Addr × Lbl), (∀ p ∈ links, p.1 ∈ outDom cs) → (∀ p ∈ links, p.2 ∈ labelsOf c.outs) →
+      (cfg.pushLinks = true → ∀ p ∈ links, ∀ v, outValOf cs p.1 = some v → setVal c.outs p.2 v = c.outs) →
       forgeOut cfg cs c links = .ok c := by
   intro links
   induction links with
   | nil => intros; rfl
   | cons p links ih =>
-    intro h1 h2
+    intro h1 h2 h3
     obtain ⟨v, hv⟩ := outValOf_some cs p.1 (h1 p (by simp))
     have hm : p.2 ∈ labelsOf c.outs := h2 p (by simp)
-    obtain ⟨r, out⟩ := p
-    simp only [forgeOut, hv, hm, not_true_eq_false, if_false, hp]
-    exact ih (fun q hq => h1 q (by simp [hq])) (fun q hq => h2 q (by simp [hq]))
+    have ih' := ih (fun q hq => h1 q (by simp [hq])) (fun q hq => h2 q (by simp [hq]))
+      (fun hp q hq => h3 hp q (by simp [hq]))
+    cases hp : cfg.pushLinks with
+    | false =>
+      obtain ⟨r, out⟩ := p
+      simp only [forgeOut, hv, hm, not_true_eq_false, if_false, hp, Bool.false_eq_true]
+      exact ih'
+    | true =>
+      have hq := h3 hp p (by simp) v hv
+      obtain ⟨r, out⟩ := p
+      simp only [forgeOut, hv, hm, not_true_eq_false, if_false, hp, if_true]
+      have : ({ c with outs := setVal c.outs out v } : Core) = c := by rw [hq]
+      rw [this]
+      exact ih'
+
+theorem setstate_ok (cfg : Cfg) (c : Core) (cs : List Node)
+    (ds ss fo : List (Addr × Addr))
+    (hstart : ∀ l ∈ c.starting, l ∈ childLabels cs)
+    (hds : checkStrs (inDom (cs.map Node.adopt)) (outDom (cs.map Node.adopt)) ds = true)
+    (hss : checkStrs (sInDom (cs.map Node.adopt)) (sOutDom (cs.map Node.adopt)) ss = true)
+    (hfo : checkStrs (sOutDom (cs.map Node.adopt)) (sInDom (cs.map Node.adopt)) fo = true)
+    (hl : c.kind.hasLinks = true → LinksOk c (cs.map Node.adopt))
+    (hq : c.kind.hasLinks = true → cfg.pushLinks = true →
+      (∀ p ∈ c.inLinks, ∀ v, valOf c.ins p.1 = some v → QuietL (cs.map Node.adopt) p.2.1 p.2.2 v) ∧
+      (∀ p ∈ c.outLinks, ∀ v, outValOf (cs.map Node.adopt) p.1 = some v → setVal c.outs p.2 v = c.outs)) :
+    setstate cfg c cs ds ss fo = .ok (.mk c (cs.map Node.adopt) (restore cfg ds) (restoreSig cfg ss fo)) := by
+  have hs : (c.starting.all fun l => decide (l ∈ childLabels cs)) = true := by
+    rw [List.all_eq_true]; intro l hl'; simpa using hstart l hl'
+  unfold setstate
+  simp only [hs, hds, hss, hfo, Bool.not_true, Bool.and_false, Bool.false_eq_true, if_false]
+  by_cases hk : c.kind.hasLinks = true
+  · have L := hl hk
+    simp only [hk, if_true]
+    rw [forgeIn_ok cfg c _ c.inLinks L.inSrc L.inDst (fun hp => (hq hk hp).1)]
+    simp only []
+    rw [forgeOut_ok cfg _ c c.outLinks L.outSrc L.outDst (fun hp => (hq hk hp).2)]
+  · simp [hk]
+
+mutual
+/-- no lookup fails when a well-formed graph is unpickled, and re-forging settled links through
+the setter is accepted and changes nothing -/
+theorem load_save_node (cfg : Cfg) :
+    ∀ (n : Node), WF n → (cfg.pushLinks = true → Settled n) →
+      ∀ pp, load cfg (save pp n) = .ok (img cfg (n.core.forState pp).detached n)
+  | .mk c ch dg sg, h, hset, pp => by
+    simp only [WF] at h
+    obtain ⟨_, _, _, _, _, hd, hs, hst, hlk, hch⟩ := h
+    have hsetL : cfg.pushLinks = true → SettledL ch := fun hp => by
+      have := hset hp; simp only [Settled] at this; exact this.2
+    have ih := load_save_list cfg ch hch hsetL (lexPath (c.forState pp).detached c.label)
+    obtain ⟨e1, e2, e3, e4, e5⟩ := doms_imgL cfg ch
+    simp only [save, load, ih]
+    rw [setstate_ok cfg]
+    · simp [img, imgLd_adopt, Node.core, Core.forState]
+    · intro l hl; rw [doms_imgLd]; exact hst l (by simpa [Core.forState] using hl)
+    · rw [imgLd_adopt, e2, e3]
+      exact checkStrs_strings _ _ _ _ (fun a ha => ha) (fun a _ o ho => hd.closed a o ho)
+    · rw [imgLd_adopt, e4, e5]
+      exact checkStrs_strings _ _ _ _ (fun a ha => ha) (fun a _ o ho => hs.closed a o ho)
+    · rw [imgLd_adopt, e4, e5]
+      refine checkStrs_strings _ _ _ _ (fun a ha => ha) (fun o _ a ha => ?_)
+      have hoa : o ∈ sg.inl a := (hs.mutual_ a o).mpr ha
+      apply Classical.byContradiction
+      intro hn
+      rw [hs.support a hn] at hoa
+      cases hoa
+    · intro hk
+      have hk' : c.kind.hasLinks = true := by simpa [Core.forState] using hk
+      simp only [hk', if_true] at hlk
+      rw [imgLd_adopt]
+      exact ⟨by simpa [Core.forState] using hlk.inSrc, by simpa [Core.forState, e2] using hlk.inDst,
+        by simpa [Core.forState, e3] using hlk.outSrc, by simpa [Core.forState] using hlk.outDst⟩
+    · intro hk hp
+      have hk' : c.kind.hasLinks = true := by simpa [Core.forState] using hk
+      have hS := hset hp
+      simp only [Settled] at hS
+      obtain ⟨hS1, hS2⟩ := hS.1 hk'
+      rw [imgLd_adopt]
+      refine ⟨?_, ?_⟩
+      · intro p hp' v hv
+        exact quietL_img cfg ch _ _ v (hS1 p (by simpa [Core.forState] using hp') v (by simpa [Core.forState] using hv))
+      · intro p hp' v hv
+        have hv' : outValOf ch p.1 = some v := by simpa [outValOf, outVals_imgL] using hv
+        simpa [Core.forState] using hS2 p (by simpa [Core.forState] using hp') v hv'
+theorem load_save_list (cfg : Cfg) :
+    ∀ (ns : List Node), WFL ns → (cfg.pushLinks = true → SettledL ns) →
+      ∀ p, loadL cfg (saveL p ns) = .ok (imgLd cfg (some p) ns)
+  | [], _, _, _ => by simp [saveL, loadL, imgLd]
+  | n :: ns, h, hset, p => by
+    simp only [WFL] at h
+    obtain ⟨_, hn, hns⟩ := h
+    have i1 := load_save_node cfg n hn (fun hp => by have := hset hp; simp only [SettledL] at this; exact this.1) (some p)
+    have i2 := load_save_list cfg ns hns (fun hp => by have := hset hp; simp only [SettledL] at this; exact this.2) p
+    simp only [saveL, loadL, i1, i2]
+    simp [imgLd, Core.forState]
+end
+
+/-! ### what the returned graph shows -/
+
+mutual
+/-- the hypothesis under which the PINNED restore is faithful: where the reconnection order is not
+repaired, no data input holds more than one connection and no signal output fires more than one -/
+def AtMostOne (cfg : Cfg) : Node → Prop
+  | .mk _ ch dg sg =>
+    (cfg.revIter = false → ∀ a, (dg.inl a).length ≤ 1) ∧
+    (cfg.firing = false → ∀ o, (sg.outl o).length ≤ 1) ∧ AtMostOneL cfg ch
+def AtMostOneL (cfg : Cfg) : List Node → Prop
+  | [] => True
+  | n :: ns => AtMostOne cfg n ∧ AtMostOneL cfg ns
+end
+
+mutual
+theorem atMostOne_of_repaired (cfg : Cfg) (h1 : cfg.revIter = true) (h2 : cfg.firing = true) :
+    ∀ n : Node, AtMostOne cfg n
+  | .mk _ ch _ _ => by
+    simp only [AtMostOne]
+    exact ⟨fun h => by simp [h1] at h, fun h => by simp [h2] at h, atMostOneL_of_repaired cfg h1 h2 ch⟩
+theorem atMostOneL_of_repaired (cfg : Cfg) (h1 : cfg.revIter = true) (h2 : cfg.firing = true) :
+    ∀ ns : List Node, AtMostOneL cfg ns
+  | [] => by simp [AtMostOneL]
+  | n :: ns => by
+    simp only [AtMostOneL]
+    exact ⟨atMostOne_of_repaired cfg h1 h2 n, atMostOneL_of_repaired cfg h1 h2 ns⟩
+end
+
+theorem table_congr (dom : List Addr) (f g : Addr → List Addr) (h : ∀ a ∈ dom, f a = g a) :
+    table dom f = table dom g := by
+  unfold table
+  apply List.map_congr_left
+  intro a ha; rw [h a ha]
+
+/-- data side: every input's list comes back in the saved order -/
+theorem restore_data_faithful (cfg : Cfg) (inD outD : List Addr) (g : CG) (hnd : inD.Nodup)
+    (hok : CGok inD outD g) (h1 : cfg.revIter = false → ∀ a, (g.inl a).length ≤ 1) :
+    ∀ a ∈ inD, (restore cfg (strings inD g.inl)).inl a = g.inl a := by
+  intro a ha
+  cases hr : cfg.revIter with
+  | true => rw [(restore_repaired cfg hr g.inl inD hnd (fun a _ => hok.nodupIn a)).1 a]; simp [ha]
+  | false =>
+    rw [(restore_pinned cfg hr g.inl inD hnd (fun a _ => hok.nodupIn a)).1 a]
+    simp [ha, reverse_short _ (h1 hr a)]
+
+theorem mem_canon (inD outD : List Addr) (g : CG) (hok : CGok inD outD g) (f : Addr → List Addr)
+    (hf : ∀ a o, o ∈ f a ↔ o ∈ g.inl a) (o x : Addr) :
+    x ∈ inD.filter (fun a => decide (o ∈ f a)) ↔ x ∈ g.outl o := by
+  rw [List.mem_filter]
+  constructor
+  · intro ⟨_, h⟩; exact (hok.mutual_ x o).mp ((hf x o).mp (by simpa using h))
+  · intro h
+    have hox : o ∈ g.inl x := (hok.mutual_ x o).mpr h
+    refine ⟨?_, by simpa using (hf x o).mpr hox⟩
+    apply Classical.byContradiction
+    intro hn
+    rw [hok.support x hn] at hox
+    cases hox
+
+/-- signal side: every output's list comes back in the saved (firing) order; `f` is the input
+side the strings were taken from (any lists with the right members), `hO` the saved output side -/
+theorem restore_sig_faithful' (cfg : Cfg) (inD outD : List Addr) (g : CG) (f hO : Addr → List Addr)
+    (hndI : inD.Nodup) (hndO : outD.Nodup) (hok : CGok inD outD g)
+    (hf : ∀ a o, o ∈ f a ↔ o ∈ g.inl a) (hfn : ∀ a, (f a).Nodup) (hh : ∀ o ∈ outD, hO o = g.outl o)
+    (h2 : cfg.firing = false → ∀ o, (g.outl o).length ≤ 1) :
+    ∀ o ∈ outD, (restoreSig cfg (strings inD f) (strings outD hO)).outl o = g.outl o := by
+  intro o ho
+  -- the list `connect` builds: the inputs holding `o`, in (reverse) iteration order
+  have hcanon : ∃ l : List Addr, (restore cfg (strings inD f)).outl o = l ∧ l.Nodup ∧ ∀ x, x ∈ l ↔ x ∈ g.outl o := by
+    have hfl : (inD.filter fun a => decide (o ∈ f a)).Nodup := List.Nodup.sublist List.filter_sublist hndI
+    cases hr : cfg.revIter with
+    | true =>
+      refine ⟨_, (restore_repaired cfg hr f inD hndI (fun a _ => hfn a)).2 o, hfl, ?_⟩
+      exact fun x => mem_canon inD outD g hok f hf o x
+    | false =>
+      refine ⟨_, (restore_pinned cfg hr f inD hndI (fun a _ => hfn a)).2 o, nodup_reverse' _ hfl, ?_⟩
+      intro x; rw [List.mem_reverse]; exact mem_canon inD outD g hok f hf o x
+  obtain ⟨l, hl, hlnd, hlm⟩ := hcanon
+  cases hfi : cfg.firing with
+  | true =>
+    simp only [restoreSig, hfi, if_true, hl]
+    rw [firingOf_strings hO outD hndO o]
+    simp only [ho, if_true, hh o ho]
+    exact reorder_eq _ _ (fun x hx => (hlm x).mpr hx) (fun x hx => (hlm x).mp hx)
+  | false =>
+    simp only [restoreSig, hfi, Bool.false_eq_true, if_false, hl]
+    exact eq_of_short l (g.outl o) hlnd (h2 hfi o) hlm
+
+theorem restore_sig_faithful (cfg : Cfg) (inD outD : List Addr) (g : CG) (hndI : inD.Nodup) (hndO : outD.Nodup)
+    (hok : CGok inD outD g) (h2 : cfg.firing = false → ∀ o, (g.outl o).length ≤ 1) :
+    ∀ o ∈ outD, (restoreSig cfg (strings inD g.inl) (strings outD g.outl)).outl o = g.outl o :=
+  restore_sig_faithful' cfg inD outD g g.inl g.outl hndI hndO hok (fun _ _ => Iff.rfl) hok.nodupIn
+    (fun _ _ => rfl) h2
+
+/-- whatever the order, reconnecting only ever yields the saved members on the saved channels -/
+theorem restore_inl_mem (cfg : Cfg) (f : Addr → List Addr) (dom : List Addr) (hnd : dom.Nodup)
+    (hf : ∀ a ∈ dom, (f a).Nodup) (a o : Addr) :
+    o ∈ (restore cfg (strings dom f)).inl a ↔ a ∈ dom ∧ o ∈ f a := by
+  cases hr : cfg.revIter with
+  | true =>
+    rw [(restore_repaired cfg hr f dom hnd hf).1 a]
+    by_cases ha : a ∈ dom <;> simp [ha]
+  | false =>
+    rw [(restore_pinned cfg hr f dom hnd hf).1 a]
+    by_cases ha : a ∈ dom <;> simp [ha]
+
+theorem restore_inl_nodup (cfg : Cfg) (f : Addr → List Addr) (dom : List Addr) (hnd : dom.Nodup)
+    (hf : ∀ a ∈ dom, (f a).Nodup) (a : Addr) : ((restore cfg (strings dom f)).inl a).Nodup := by
+  cases hr : cfg.revIter with
+  | true =>
+    rw [(restore_repaired cfg hr f dom hnd hf).1 a]
+    by_cases ha : a ∈ dom <;> simp [ha, hf]
+  | false =>
+    rw [(restore_pinned cfg hr f dom hnd hf).1 a]
+    by_cases ha : a ∈ dom
+    · simp [ha, nodup_reverse' _ (hf a ha)]
+    · simp [ha]
+
+theorem restoreSig_inl (cfg : Cfg) (l fo : List (Addr × Addr)) : (restoreSig cfg l fo).inl = (restore cfg l).inl := by
+  unfold restoreSig
+  cases cfg.firing <;> simp
+
+theorem strings_congr (dom : List Addr) (f g : Addr → List Addr) (h : ∀ a ∈ dom, f a = g a) :
+    strings dom f = strings dom g := by
+  induction dom with
+  | nil => rfl
+  | cons a dom ih =>
+    rw [strings_cons, strings_cons, h a (by simp), ih (fun b hb => h b (by simp [hb]))]
+
+theorem seen_forState (c : Core) (d : Option Path) :
+    ({ c.forState none with detached := d } : Core).seen = ({ c with detached := d } : Core).seen := by
+  simp [Core.seen, Core.forState]
+
+mutual
+/-- a round trip shows what the original showed -/
+theorem obs_img (cfg : Cfg) :
+    ∀ (n : Node), WF n → AtMostOne cfg n → ∀ d p, obs p (img cfg d n) = obs p (n.withDetached d)
+  | .mk c ch dg sg, h, hone, d, p => by
+    simp only [WF] at h
+    obtain ⟨_, hi, _, hsi, hso, hd, hs, _, _, hch⟩ := h
+    simp only [AtMostOne] at hone
+    obtain ⟨o1, o2, och⟩ := hone
+    obtain ⟨_, e2, _, _, e5⟩ := doms_imgL cfg ch
+    have ih := obsL_img cfg ch hch och
+    have t1 := table_congr _ _ _ (restore_data_faithful cfg _ _ dg hi hd o1)
+    have t2 := table_congr _ _ _ (restore_sig_faithful cfg _ _ sg hsi hso hs o2)
+    simp only [img, Node.withDetached, obs, e2, e5, ih, t1, t2]
+    simp [Core.seen, Core.forState]
+theorem obsL_img (cfg : Cfg) :
+    ∀ (ns : List Node), WFL ns → AtMostOneL cfg ns → ∀ p, obsL p (imgL cfg ns) = obsL p ns
+  | [], _, _, _ => by simp [imgL]
+  | n :: ns, h, hone, p => by
+    simp only [WFL] at h
+    obtain ⟨hdet, hn, hns⟩ := h
+    simp only [AtMostOneL] at hone
+    have i1 := obs_img cfg n hn hone.1 none p
+    have i2 := obsL_img cfg ns hns hone.2 p
+    have hw : n.withDetached none = n := by
+      cases n with
+      | mk c _ _ _ =>
+        simp only [Node.core] at hdet
+        simp only [Node.withDetached]
+        congr
+        cases c; simp_all
+    simp only [imgL, obsL, i1, i2, hw]
+end
+
+/-! ### the file back end: `Node.load` = unpickle + a second, shallow state cycle -/
+
+theorem imgL_adopt (cfg : Cfg) (ns : List Node) : (imgL cfg ns).map Node.adopt = imgL cfg ns := by
+  induction ns with
+  | nil => simp [imgL]
+  | cons n ns ih => simp [imgL, adopt_img, ih]
+
+theorem forState_idem (c : Core) (d : Option Path) :
+    ({ c.forState none with detached := d } : Core).forState none = { c.forState none with detached := d } := by
+  simp [Core.forState]
+
+theorem fileLoad_save (cfg : Cfg) (n : Node) (hwf : WF n) (hset : cfg.pushLinks = true → Settled n)
+    (hone : AtMostOne cfg n) (pp : Option Path) :
+    ∃ n', fileLoad cfg n.core.cls (save pp n) = .ok n' ∧
+      ∀ p, obs p n' = obs p (n.withDetached (n.core.forState pp).detached) := by
+  cases n with
+  | mk c ch dg sg =>
+  have hl := load_save_node cfg (.mk c ch dg sg) hwf hset pp
+  simp only [WF] at hwf
+  obtain ⟨_, hi, ho, hsi, hso, hd, hs, hst, hlk, hch⟩ := hwf
+  simp only [AtMostOne] at hone
+  obtain ⟨o1, o2, och⟩ := hone
+  obtain ⟨e1, e2, e3, e4, e5⟩ := doms_imgL cfg ch
+  -- what the first cycle left on the top composite
+  have hD := restore_data_faithful cfg _ _ dg hi hd o1
+  have hS := restore_sig_faithful cfg _ _ sg hsi hso hs o2
+  have hS1 : strings (inDom ch) (restore cfg (strings (inDom ch) dg.inl)).inl = strings (inDom ch) dg.inl :=
+    strings_congr _ _ _ hD
+  have hS3 : strings (sOutDom ch) (restoreSig cfg (strings (sInDom ch) sg.inl) (strings (sOutDom ch) sg.outl)).outl
+      = strings (sOutDom ch) sg.outl := strings_congr _ _ _ hS
+  have hmem : ∀ a o, o ∈ (restore cfg (strings (sInDom ch) sg.inl)).inl a ↔ o ∈ sg.inl a := by
+    intro a o
+    rw [restore_inl_mem cfg sg.inl _ hsi (fun a _ => hs.nodupIn a)]
+    constructor
+    · exact fun h => h.2
+    · intro h
+      refine ⟨?_, h⟩
+      apply Classical.byContradiction
+      intro hn
+      rw [hs.support a hn] at h
+      cases h
+  have hnd2 := restore_inl_nodup cfg sg.inl _ hsi (fun a _ => hs.nodupIn a)
+  simp only [Node.core] at hl ⊢
+  simp only [fileLoad, hl, img, e2, e4, e5, hS1, hS3, restoreSig_inl, forState_idem]
+  have hcls : (c.forState none).cls = c.cls := by simp [Core.forState]
+  simp only [hcls, ne_eq, not_true_eq_false, if_false]
+  rw [setstate_ok cfg]
+  · refine ⟨_, rfl, fun p => ?_⟩
+    rw [imgL_adopt]
+    have t1 := table_congr _ _ _ hD
+    have t2 := table_congr _ _ _
+      (restore_sig_faithful' cfg _ _ sg _ sg.outl hsi hso hs hmem hnd2 (fun _ _ => rfl) o2)
+    have ih := obsL_img cfg ch hch och
+    simp only [Node.withDetached, obs, e2, e5, ih, t1, t2]
+    simp [Core.seen, Core.forState]
+  · intro l hl'; rw [e1]; exact hst l (by simpa [Core.forState] using hl')
+  · rw [imgL_adopt, e2, e3]
+    exact checkStrs_strings _ _ _ _ (fun a ha => ha) (fun a _ o ho' => hd.closed a o ho')
+  · rw [imgL_adopt, e4, e5]
+    exact checkStrs_strings _ _ _ _ (fun a ha => ha) (fun a _ o ho' => hs.closed a o ((hmem a o).mp ho'))
+  · rw [imgL_adopt, e4, e5]
+    refine checkStrs_strings _ _ _ _ (fun a ha => ha) (fun o _ a ha => ?_)
+    have hoa : o ∈ sg.inl a := (hs.mutual_ a o).mpr ha
+    apply Classical.byContradiction
+    intro hn
+    rw [hs.support a hn] at hoa
+    cases hoa
+  · intro hk
+    have hk' : c.kind.hasLinks = true := by simpa [Core.forState] using hk
+    simp only [hk', if_true] at hlk
+    rw [imgL_adopt]
+    exact ⟨by simpa [Core.forState] using hlk.inSrc, by simpa [Core.forState, e2] using hlk.inDst,
+      by simpa [Core.forState, e3] using hlk.outSrc, by simpa [Core.forState] using hlk.outDst⟩
+  · intro hk hp
+    have hk' : c.kind.hasLinks = true := by simpa [Core.forState] using hk
+    have hSt := hset hp
+    simp only [Settled] at hSt
+    obtain ⟨hS1', hS2'⟩ := hSt.1 hk'
+    rw [imgL_adopt]
+    refine ⟨?_, ?_⟩
+    · intro q hq v hv
+      exact quietL_img cfg ch _ _ v (hS1' q (by simpa [Core.forState] using hq) v (by simpa [Core.forState] using hv))
+    · intro q hq v hv
+      have hv' : outValOf ch q.1 = some v := by simpa [outValOf, outVals_imgL] using hv
+      simpa [Core.forState] using hS2' q (by simpa [Core.forState] using hq) v hv'
+
+/-! ### the sides whose order is not observed, and what a later run reads -/
+
+/-- data outputs / signal inputs: the same members come back (only their order is rebuilt) -/
+theorem restore_outl_mem (cfg : Cfg) (inD outD : List Addr) (g : CG) (hnd : inD.Nodup) (hok : CGok inD outD g)
+    (o x : Addr) : x ∈ (restore cfg (strings inD g.inl)).outl o ↔ x ∈ g.outl o := by
+  cases hr : cfg.revIter with
+  | true =>
+    rw [(restore_repaired cfg hr g.inl inD hnd (fun a _ => hok.nodupIn a)).2 o]
+    exact mem_canon inD outD g hok g.inl (fun _ _ => Iff.rfl) o x
+  | false =>
+    rw [(restore_pinned cfg hr g.inl inD hnd (fun a _ => hok.nodupIn a)).2 o, List.mem_reverse]
+    exact mem_canon inD outD g hok g.inl (fun _ _ => Iff.rfl) o x
+
+theorem outl_nil_of_not_mem (inD outD : List Addr) (g : CG) (hok : CGok inD outD g) (o : Addr) (ho : o ∉ outD) :
+    g.outl o = [] := by
+  apply List.eq_nil_iff_forall_not_mem.mpr
+  intro x hx
+  exact ho (hok.closed x o ((hok.mutual_ x o).mpr hx))
+
+/-- repaired restore: the signal graph comes back exactly, on both sides, everywhere -/
+theorem restoreSig_exact (cfg : Cfg) (h1 : cfg.revIter = true) (h2 : cfg.firing = true) (inD outD : List Addr)
+    (g : CG) (hndI : inD.Nodup) (hndO : outD.Nodup) (hok : CGok inD outD g) :
+    (restoreSig cfg (strings inD g.inl) (strings outD g.outl)).inl = g.inl ∧
+    (restoreSig cfg (strings inD g.inl) (strings outD g.outl)).outl = g.outl := by
+  refine ⟨?_, ?_⟩
+  · funext a
+    rw [restoreSig_inl, (restore_repaired cfg h1 g.inl inD hndI (fun a _ => hok.nodupIn a)).1 a]
+    by_cases ha : a ∈ inD
+    · simp [ha]
+    · simp [ha, hok.support a ha]
+  · funext o
+    by_cases ho : o ∈ outD
+    · exact restore_sig_faithful cfg inD outD g hndI hndO hok (fun h => by simp [h2] at h) o ho
+    · rw [outl_nil_of_not_mem inD outD g hok o ho]
+      simp only [restoreSig, h2, if_true]
+      rw [firingOf_strings g.outl outD hndO o]
+      have hnil : (restore cfg (strings inD g.inl)).outl o = [] := by
+        apply List.eq_nil_iff_forall_not_mem.mpr
+        intro x hx
+        have := (restore_outl_mem cfg inD outD g hndI hok o x).mp hx
+        rw [outl_nil_of_not_mem inD outD g hok o ho] at this
+        cases this
+      simp [ho, hnil, reorder]
+
+/-- the scheduler graph a later run reads is the same after a (repaired) round trip -/
+theorem toGraph_img (cfg : Cfg) (h1 : cfg.revIter = true) (h2 : cfg.firing = true) (n : Node) (hwf : WF n)
+    (d : Option Path) : toGraph (img cfg d n) = toGraph n := by
+  cases n with
+  | mk c ch dg sg =>
+  simp only [WF] at hwf
+  obtain ⟨_, _, _, hsi, hso, _, hs, _, _, _⟩ := hwf
+  obtain ⟨e1, e2⟩ := restoreSig_exact cfg h1 h2 _ _ sg hsi hso hs
+  simp [toGraph, img, Node.sig, Node.core, Node.children, e1, e2, (doms_imgL cfg ch).2.2.2.2, Core.forState]
+
+/-- every child input fetches the same value after a round trip -/
+theorem fetchVal_img (cfg : Cfg) (n : Node) (hwf : WF n) (hone : AtMostOne cfg n) (d : Option Path) :
+    ∀ a ∈ inDom n.children, fetchVal (img cfg d n) a = fetchVal n a := by
+  cases n with
+  | mk c ch dg sg =>
+  simp only [WF] at hwf
+  obtain ⟨_, hi, _, _, _, hd, _, _, _, _⟩ := hwf
+  simp only [AtMostOne] at hone
+  intro a ha
+  simp only [Node.children] at ha
+  simp only [fetchVal, img, Node.children, Node.data, outVals_imgL,
+    restore_data_faithful cfg _ _ dg hi hd hone.1 a ha]
+
+/-! ### table-given graphs -/
+
+theorem lookupD_mem (t : List (Addr × List Addr)) (a x : Addr) (h : x ∈ lookupD t a) :
+    ∃ p ∈ t, p.1 = a ∧ x ∈ p.2 ∧ lookupD t a = p.2 := by
+  unfold lookupD at h ⊢
+  cases hf : t.find? (fun p => decide (p.1 = a)) with
+  | none => rw [hf] at h; cases h
+  | some p =>
+    rw [hf] at h
+    have hp := List.find?_some hf
+    exact ⟨p, List.mem_of_find?_eq_some hf, by simpa using hp, h, rfl⟩
+
+theorem cgCheck_sound (inD outD : List Addr) (inT outT : List (Addr × List Addr))
+    (h : cgCheck inD outD inT outT = true) : CGok inD outD (CG.ofTables inT outT) := by
+  unfold cgCheck at h
+  rw [Bool.and_eq_true, List.all_eq_true, List.all_eq_true] at h
+  obtain ⟨hin, hout⟩ := h
+  have hin' : ∀ p ∈ inT, p.1 ∈ inD ∧ (∀ o ∈ p.2, o ∈ outD) ∧ p.2.Nodup ∧ ∀ o ∈ p.2, p.1 ∈ lookupD outT o := by
+    intro p hp
+    have := hin p hp
+    simp only [Bool.and_eq_true, decide_eq_true_eq, List.all_eq_true] at this
+    exact ⟨this.1.1.1, this.1.1.2, this.1.2, this.2⟩
+  have hout' : ∀ q ∈ outT, ∀ a ∈ q.2, q.1 ∈ lookupD inT a := by
+    intro q hq a ha
+    have := hout q hq
+    simp only [List.all_eq_true, decide_eq_true_eq] at this
+    exact this a ha
+  refine ⟨?_, ?_, ?_, ?_⟩
+  · intro a ha
+    apply List.eq_nil_iff_forall_not_mem.mpr
+    intro x hx
+    obtain ⟨p, hp, hpa, _, _⟩ := lookupD_mem inT a x hx
+    exact ha (hpa ▸ (hin' p hp).1)
+  · intro a o ho
+    obtain ⟨p, hp, _, hop, _⟩ := lookupD_mem inT a o ho
+    exact (hin' p hp).2.1 o hop
+  · intro a
+    show (lookupD inT a).Nodup
+    by_cases hne : ∃ x, x ∈ lookupD inT a
+    · obtain ⟨x, hx⟩ := hne
+      obtain ⟨p, hp, _, _, he⟩ := lookupD_mem inT a x hx
+      rw [he]; exact (hin' p hp).2.2.1
+    · have : lookupD inT a = [] := List.eq_nil_iff_forall_not_mem.mpr (fun x hx => hne ⟨x, hx⟩)
+      rw [this]; exact List.nodup_nil
+  · intro a o
+    constructor
+    · intro ho
+      obtain ⟨p, hp, hpa, hop, _⟩ := lookupD_mem inT a o ho
+      exact hpa ▸ (hin' p hp).2.2.2 o hop
+    · intro ha
+      obtain ⟨q, hq, hqo, haq, _⟩ := lookupD_mem outT o a ha
+      exact hqo ▸ hout' q hq a haq
 
 end PwVerif.Serial
